@@ -61,12 +61,14 @@ template <class PT> void run_scene(vf::Ctx& c, const char* tname, const Scene& s
     // source = motion^-1 (target) (+ deterministic perturbation): the exact motion source -> target is (R, tr)
     PointSet<PT> src, tgt; NormalSet<PT> nrm;
     for (size_t i = 0; i < n; ++i) { V3 q = sc.pts[i]; V3 p = R.transpose() * (q - tr); if (noise) { auto h = regref::pattern((unsigned)(i + 13)); p += 0.01L * V3(h[0], h[1], DIM == 3 ? h[2] : 0); } src.push_back(mkp<PT>(p)); tgt.push_back(mkp<PT>(q)); nrm.push_back(mkp<PT>(sc.nrm[i], true)); }
-    for (int cm = 0; cm < 3; ++cm) {
-      // 0: identity correspondences; 1: subset (every other, reversed order); 2: target (and normals) stored permuted
+    for (int cm = 0; cm < 4; ++cm) {
+      // 0: identity correspondences; 1: subset (every other, reversed order); 2: target (and normals) stored permuted;
+      // 3: many-to-one - every source point is matched to two target points (more correspondences than source points)
       std::vector<Correspondence> cor; PointSet<PT> tgtU = tgt; NormalSet<PT> nrmU = nrm;
       if (cm == 0) for (size_t i = 0; i < n; ++i) cor.emplace_back(i, i);
       else if (cm == 1) { for (size_t i = n; i-- > 0;) if (i % 2 == 0 || n <= 12) cor.emplace_back(i, i); }
-      else { size_t m = 0; for (size_t k = 1; k < n; ++k) if (std::__gcd(k, n) == 1 && k > n / 3) { m = k; break; } if (!m) continue; for (size_t i = 0; i < n; ++i) { size_t j = (i * m + 1) % n; tgtU[j] = tgt[i]; nrmU[j] = nrm[i]; cor.emplace_back(i, j); } }
+      else if (cm == 2) { size_t m = 0; for (size_t k = 1; k < n; ++k) if (std::__gcd(k, n) == 1 && k > n / 3) { m = k; break; } if (!m) continue; for (size_t i = 0; i < n; ++i) { size_t j = (i * m + 1) % n; tgtU[j] = tgt[i]; nrmU[j] = nrm[i]; cor.emplace_back(i, j); } }
+      else { for (size_t i = 0; i < n; ++i) { auto h = regref::pattern((unsigned)(i + 401)); PT q = tgt[i]; for (int d = 0; d < DIM; ++d) q[d] += (S)(0.004 * h[d]); tgtU.push_back(q); nrmU.push_back(nrm[i]); } for (size_t i = 0; i < n; ++i) { cor.emplace_back(i, i); cor.emplace_back(i, n + i); } }
       if ((int)cor.size() < P) continue;
       // J, Y from the definition, in long double, on the data as stored in S
       auto build = [&](LD scale, LM& J, LV& Y) {
@@ -121,7 +123,7 @@ template <class PT> void run_scene(vf::Ctx& c, const char* tname, const Scene& s
         if (!(res.norm() <= tolr)) c.violation("FindRigidTransformationByLeastSquares.find.normalEquationResidual", p2, vf::JO().num("residual", res.norm()).num("tol", tolr).done());
         if (!haveFirst) { firstX = x; haveFirst = true; }
         else if ((x - firstX).norm() > 2 * tolUse) c.violation("FindRigidTransformationByLeastSquares.find.overloadsDisagree", p2, vf::JO().num("difference", (x - firstX).norm()).done());
-        if (!noise) {
+        if (!noise && cm != 3) {   // (the duplicated targets of mode 3 are perturbed: no exact-data consequences there)
           // consequences: pure translation exact; rotation of angle theta recovered with O(theta^2) error
           LV xt(P); xt.setZero(); for (int d = 0; d < DIM; ++d) xt[d] = tr[d]; if (DIM == 2) xt[2] = theta; else for (int d = 0; d < 3; ++d) xt[3 + d] = theta * ax[d];
           // the translation paired with the rotation vector about the origin: target = R source + tr
@@ -297,7 +299,7 @@ std::string vf_describe(const std::string& tier) {
   o.strs("scenes_2d", a).strs("scenes_3d", b);
   o.str("motions_thorough", "angles {0,1e-6,+-1e-4,1e-3,1e-2,-0.03,0.05,0.1}, 3D: six axes, two more translations (one of the size of the extent, one of 1e-6)");
   o.str("motions", "rotation angle {0,1e-4,1e-2,0.1} about z (3D: z, x, (1,-1,1)) x translation {0, (0.05,-0.02,0.03), 0.4 x extent}; exact and perturbed (0.01) sources");
-  o.str("correspondences", "identity, subset in reversed order, target and normals stored permuted (source index != target index)");
+  o.str("correspondences", "identity, subset in reversed order, target and normals stored permuted (source index != target index), many-to-one (every source point matched to two target points: more correspondences than source points)");
   o.str("overloads", "index-based on a fresh estimator, index-based on one estimator reused for the whole scene, aligned, preconditioned by 1e-3 and 1e3 with setPreconditioner");
   o.str("S", std::string("every sequence of ") + (tier == "thorough" ? "6" : "3") + " operations out of 18 (all / half of the points x index-based / aligned x {find on sets scaled as configured, setPreconditioner with scale 1, 0.05, 40 then find}; assign the estimator to another long-lived estimator and continue with that one; continue with a copy-constructed estimator) on ONE estimator, 8 point types, 40-point square / 96-point box with a 0.09 rad motion and perturbed sources; every answer within twice the forward-error bound of the answer of a fresh estimator");
   o.str("all_sizes", "every correspondence count from 2P to 500 on the 500-point corridor / room scene (0.02 rad motion, perturbed sources), aligned and index-based overloads on fresh estimators and index-based on one estimator reused for every size, all 8 point types, vs the QR reference");
